@@ -349,6 +349,20 @@ func (w *World) genClause(segOK bool) *J {
 	if r.P(0.04) {
 		op = r.Pick([]string{"unknownOp", "", "IN"})
 	}
+	if (op == "before" || op == "after") && r.P(0.5) {
+		// a date comparison is only interesting against an attribute that holds a date
+		for _, sp := range w.ctx.Singles {
+			for _, kv := range sp.Attrs {
+				if kv.K == "date" {
+					attr, kind, path = "date", sp.Kind, false
+					if kind == "user" && r.P(0.5) {
+						kind = ""
+					}
+					effKind = sp.Kind
+				}
+			}
+		}
+	}
 	vals := &J{K: 'a', A: []*J{}}
 	nv := r.Range(0, 3)
 	if r.P(0.7) && nv == 0 {
@@ -380,7 +394,7 @@ func (w *World) genClause(segOK bool) *J {
 				if r.P(0.1) { // instants before the epoch, as numbers
 					v = JNum([]float64{-1, -315619200000, -86400000.5, -1e15}[r.Intn(4)])
 				}
-				if r.P(0.12) { // the instant whose Go representation is the zero time.Time, in its three spellings
+				if r.P(0.12 + 0.3*p.PDateAttr) { // the instant whose Go representation is the zero time.Time, in its three spellings
 					v = []*J{JStr("0001-01-01T00:00:00Z"), JStr("0000-12-31T23:00:00-01:00"), JNum(-62135596800000)}[r.Intn(3)]
 				}
 			case "semVerEqual", "semVerLessThan", "semVerGreaterThan":
